@@ -20,7 +20,7 @@ import shutil
 import subprocess
 
 from .core import BIN, LEAN, goenv
-from . import designs, protoparse
+from . import designs, protoparse, c10rt
 
 PROTO_SCALAR = {"Boolean": "bool", "Int": "sint32", "Int32": "sint32", "Int64": "sint64", "UInt": "uint32", "UInt32": "uint32", "UInt64": "uint64",
                 "Float32": "float", "Float64": "double", "String": "string", "Bytes": "bytes"}
@@ -254,7 +254,6 @@ def run(c):
         "numbers and names per message, known types, scalar map keys)",
         "Model/Proto.lean is hand-written from expr/grpc_endpoint.go Validate / validateMessage / validateRPCTags (request side); response messages and nested "
         "user types are judged only by the parser",
-        "the conversions between protobuf structs and service types are not executed yet (no protoc-gen-go output): see DESIGN.md",
     ]
     have = c.go_build("genrun")
     lean_ok = False
@@ -341,11 +340,18 @@ def run(c):
                     f["signature"] = "c10/malformed-accepted:%s:%s" % (label, f["signature"].split("/", 1)[1])
     c.cov["ties"].setdefault("T3", []).append({"name": "field-number checks: real engine vs drv_proto", "lines": len(model), "disagreements": dis})
     shutil.rmtree(work, ignore_errors=True)
+    # second half of the property: conversions and validation of the generated gRPC code, executed
+    if c.tier == "quick":
+        c10rt.run_roundtrip(c, 24, 6, 14)
+    else:
+        c10rt.run_roundtrip(c, 120, 15, 24)
 
 
 def replay(c, obj):
     f = obj["failure"]
     c.go_build("genrun")
+    if isinstance(f.get("input"), dict) and "command" in f["input"]:
+        return c10rt.replay_one(c, f)
     work = designs.scratch("C10r")
     rep = proto_of(json.dumps(f["design"]), work, 0)
     shutil.rmtree(work, ignore_errors=True)
